@@ -709,6 +709,15 @@ func (env *Env) evalBuiltin(name string, x *ast.CallExpr, st *State) Val {
 		case *types.Map:
 			return env.zero(t)
 		case *types.Chan:
+			// make(chan T[, n]) is logged as a call "makechan" with the capacity as its argument
+			// (0 = unbuffered), so that a contract can demand a synchronous hand-over
+			capv := intVal("0")
+			if len(x.Args) >= 2 {
+				capv = env.eval(x.Args[1], st)
+			}
+			if !env.contract {
+				env.callHooksNamed("makechan", nil, []Val{capv}, st, x)
+			}
 			return Val{T: c.fresh("chan", "Int"), Ty: t}
 		}
 	case "new":
